@@ -45,3 +45,32 @@ package driver
 //@   requires p != nil
 //@   requires forall i int :: 0 <= i && i < len(p.SampleType) ==> p.SampleType[i] != nil
 //@   ensures picked: result3 == nil ==> exists i int :: 0 <= i && i < len(p.SampleType) && result2 == p.SampleType[i]
+
+// ---- C16: the merge input is exactly the successfully fetched sources, in source order ----
+
+// nok(s, n): number of sources among s[0..n) whose fetch succeeded.
+//@ spec func nok(s []profileSource, n int) int = ite(n <= 0, 0, nok(s, n - 1) + ite(s[n-1].err == nil, 1, 0)) decreases n
+
+// concurrentGrab: after the barrier (loop 2 is entered right after wg.Wait) the profiles handed to
+// combineProfiles are those of the sources whose err is nil, in index order; failures are skipped, not fatal.
+//@ func concurrentGrab
+//@   requires ui != nil
+//@   ensures none: atloop(2, nok(sources, len(sources))) == 0 ==> result0 == nil && result3 == 0 && result4 == nil
+//@   ensures count: result4 == nil && atloop(2, nok(sources, len(sources))) > 0 ==> result3 == atloop(2, nok(sources, len(sources)))
+//@   loop 2
+//@     invariant 0 <= $i && $i <= len(sources) && len(profiles) == len(msrcs) && ui != nil
+//@     invariant cnt: len(profiles) == atloop(2, nok(sources, $i))
+//@     invariant suffix: forall k int :: $i <= k && k < len(sources) ==> sources[k].err == atloop(2, sources[k].err) && sources[k].p == atloop(2, sources[k].p) && sources[k].msrc == atloop(2, sources[k].msrc)
+//@     invariant order: forall k int :: 0 <= k && k < $i && atloop(2, sources[k].err) == nil ==> 0 <= atloop(2, nok(sources, k)) && atloop(2, nok(sources, k)) < len(profiles)
+//@         && profiles[atloop(2, nok(sources, k))] == atloop(2, sources[k].p) && msrcs[atloop(2, nok(sources, k))] == atloop(2, sources[k].msrc)
+
+// chunkedGrab: the sources are handed to concurrentGrab in consecutive chunks: iteration k passes
+// sources[128k : min(128(k+1), n)], so every source is in exactly one chunk and chunks are merged in order.
+//@ func chunkedGrab
+//@   requires ui != nil
+//@   callsite concurrentGrab chunk: start % 128 == 0 && 0 <= start && start < len(sources)
+//@       && len($arg0) == ite(start + 128 <= len(sources), 128, len(sources) - start)
+//@       && forall j int :: 0 <= j && j < len($arg0) ==> elem_addr($arg0, j) == elem_addr(sources, start + j)
+//@   callsite concurrentGrab pre: $arg3 != nil
+//@   loop 1
+//@     invariant 0 <= start && start % 128 == 0 && ui != nil
